@@ -28,7 +28,7 @@ RULE = ("SPD systems (Gram + shift, random sparse pattern; solver CG) and strict
         "calls on the same matrix and x; the call with the budget 20n+100 carries the demands with the previous x as its guess. "
         "extreme-scale = adversarial family of the RECORDED finding f64-square-range (5 systems per quick run, all five entry points): small SPD / strictly diagonally "
         "dominant systems with b or A scaled by 2^+-(520..700) or a solution beyond the f64 range; a failure carries the key exactly when the INPUT has ||b||^2, the "
-        "square of an entry of b / x0 / A or a product A_ij x_j of the exact solution outside [2^-1022, 2^1024) AND the failure is a symptom of that cause (x non-finite, Err, Ok with x far from the direct solution -- not a panic, a wrong length, a modified correct x or a count above the bound); inputs in range fall through to the breakdown keys; histories never. "
+        "square of an entry of b / x0 / A or a product A_ij x_j of the exact solution outside [2^-1022, 2^1024) AND the failure is a symptom of that cause (x non-finite, Err, Ok with x far from the direct solution, a count above the bound -- not a panic, a wrong length, a modified correct x); inputs in range fall through to the breakdown keys; histories never. "
         "distinct = distinct executor line; non-trivial = order >= 2.")
 TRUSTED = ["Coq 8.16.1 kernel + vm_compute (primitive floats)", "Rust executor /verif/harness (kinds it.*)",
            "python driver: generators, numpy.linalg.solve / cond reference, stream comparators",
@@ -52,7 +52,7 @@ MANIFEST = dict(
           "breakdowns of BiCG / BiCGSTAB / QMR on small-integer systems), recorded as three open findings keyed by the model's trace when it reproduces the implementation's answer bit for bit: the model's exit code (an exact `== 0` exit / BiCG's 0/0) OR a near-breakdown (smallest scale-free bi-Lanczos pivot of the trace <= 1e-10). The search space includes "
           "structured matrices, joint power-of-two scaling of A and b (absolute thresholds show), one-entry / equal-entry / unit-norm / -0.0 right-hand sides, guesses exact "
           "except in one component, and restarts (two calls on the same matrix object and x: executor kind it.seq, oracle only). Right-hand sides / matrices scaled by "
-          "2^+-(520..700) are searched as well; the failures there are the recorded finding f64-square-range (norm_2 squares its entries), keyed by the input and granted only to the symptoms of that cause (non-finite x, Err, Ok with x far from the direct solution): a panic, a wrong length, a modified correct x or a count above the bound stays a violation there."),
+          "2^+-(520..700) are searched as well; the failures there are the recorded finding f64-square-range (norm_2 squares its entries), keyed by the input and granted only to the symptoms of that cause (non-finite x, Err, Ok with x far from the direct solution, a count above the bound): a panic, a wrong length, a modified correct x stays a violation there."),
     note=("PARTIAL: the degenerate-start half and exact-arithmetic finite termination of CG / symmetric BiCG on SPD and symmetric diagonally dominant systems are theorems. Convergence of the floating-point Krylov iterations is searched, never proved; the iteration "
           "constant 3n+10 (positive-diagonal SDD and SPD; 20n+100 for mixed-sign diagonals) and the attainability rule tol >= 10 n eps kappa are calibrated."),
     technique="Coq proof over an abstract field (degenerate starts) + float-model/implementation differential execution + numpy reference search (convergence)",
@@ -318,10 +318,12 @@ def finding_key(case, desc, decoded):
     # recorded finding f64-square-range: decided from the INPUT (||b||^2, a squared entry of b / x0 / A or a product
     # A_ij x_j of the exact solution outside the normal f64 range) AND granted only to the documented symptoms of unscaled
     # squares: x non-finite (NaN / inf), Err(..) instead of convergence, Ok with x far from the direct solution (Ok(0) with
-    # x left at the guess).  A panic, x of the wrong length, a modified correct x or an iteration count above the bound is
-    # not explained by that cause and stays a violation.  Inputs in range fall through to the breakdown keys.
+    # x left at the guess), an iteration count above the bound (norm_2(b) = 0 is taken for a zero right-hand side and the test
+    # becomes absolute: Ok(32) for n = 3 on b = 2^-539 * (..) with a guess of order 1).  A panic, x of the wrong length, a
+    # modified correct x or a refused exact start is not explained by that cause and stays a violation.  Inputs in range
+    # fall through to the breakdown keys.
     square_symptom = ("not finite" in desc or "non-finite" in desc or "no convergence" in desc or "exceeds 2*tol*kappa" in desc
-                      or ("was not accepted" in desc and "Err(nan)" in desc))
+                      or "needs more than" in desc or ("was not accepted" in desc and "Err(nan)" in desc))
     if square_symptom and "sys" in case.meta and scale_out_of_range(Sys.from_json(case.meta["sys"])):
         return KEY_SQUARE_RANGE
     if decoded is None or not ("no convergence" in desc or "not finite" in desc or "needs more than" in desc):
